@@ -1,6 +1,7 @@
 package sim
 
 import (
+	"runtime/debug"
 	"bufio"
 	"crypto/sha256"
 	"encoding/hex"
@@ -79,13 +80,13 @@ func GenCase(spec *PropSpec, base uint64, tier string, i int) (uint64, Config, P
 }
 
 // ExecCase executes one case and returns the run.
-func ExecCase(spec *PropSpec, seed uint64, cfg Config, plan Plan) *Run {
-	r := NewRun(spec.ID, seed, cfg, plan, spec.Monitors())
+func ExecCase(spec *PropSpec, seed uint64, cfg Config, plan Plan) (r *Run) {
+	r = NewRun(spec.ID, seed, cfg, plan, spec.Monitors())
 	r.NoPanicGuard = spec.PanicsAreViolations
 	defer func() {
 		if rec := recover(); rec != nil {
 			// a panic in the harness itself (not inside a guarded ABCI call)
-			r.abort(fmt.Sprintf("harness-panic: %v", rec))
+			r.abort(fmt.Sprintf("harness-panic: %v :: %s", rec, trimHarnessStack(string(debug.Stack()))))
 			if os.Getenv("EXOSIM_DEBUG") != "" {
 				panic(rec)
 			}
@@ -503,7 +504,11 @@ func Check(propID, tier string, runsOverride int, workers int) int {
 			states[s]++
 		}
 		if rr.Stats.Aborted != "" {
-			aborted[normDigits(firstLine(rr.Stats.Aborted))]++
+			if strings.HasPrefix(rr.Stats.Aborted, "harness") {
+				aborted[firstLine(rr.Stats.Aborted)]++
+			} else {
+				aborted[normDigits(firstLine(rr.Stats.Aborted))]++
+			}
 		}
 		if rr.NonTrivial && !distinct[rr.PlanHash] {
 			distinct[rr.PlanHash] = true
@@ -719,6 +724,36 @@ func Main(args []string) int {
 			return 2
 		}
 		return Replay(args[1])
+	case "debug":
+		fs := flag.NewFlagSet("debug", flag.ContinueOnError)
+		prop := fs.String("prop", "", "")
+		tier := fs.String("tier", "quick", "")
+		seed := fs.Uint64("seed", 1, "")
+		idx := fs.Int("i", 0, "")
+		if err := fs.Parse(args[1:]); err != nil {
+			return 2
+		}
+		spec := Registry[*prop]
+		sd, cfg, plan := GenCase(spec, *seed, *tier, *idx)
+		cb, _ := json.Marshal(cfg)
+		fmt.Println("config:", string(cb))
+		r := NewRun(spec.ID, sd, cfg, plan, spec.Monitors())
+		r.NoPanicGuard = spec.PanicsAreViolations
+		r.Verbose = true
+		if spec.Exec != nil {
+			spec.Exec(r)
+		} else {
+			r.Execute()
+		}
+		for _, l := range r.Log {
+			fmt.Println(l)
+		}
+		fmt.Println("aborted:", r.Stats.Aborted)
+		if r.Viol != nil {
+			vb, _ := json.MarshalIndent(r.Viol, "", " ")
+			fmt.Println(string(vb))
+		}
+		return 0
 	case "selftest":
 		return SelfTest(args[1:])
 	case "list":
@@ -734,4 +769,17 @@ func Main(args []string) int {
 	}
 	fmt.Println("unknown command", args[0])
 	return 2
+}
+
+func trimHarnessStack(s string) string {
+	var out []string
+	for _, l := range strings.Split(s, "\n") {
+		if strings.Contains(l, "/verif/sim/") {
+			out = append(out, strings.TrimSpace(l))
+		}
+		if len(out) >= 6 {
+			break
+		}
+	}
+	return strings.Join(out, " | ")
 }
